@@ -254,7 +254,17 @@ func init() {
 				Register(&Scenario{
 					Name:  name("pair/%s/%s+%s", base.name, a.name, b.name),
 					Props: props, Only: only,
-					Mode: "NB", Quick: 1, Thorough: 2, Shards: 1,
+					Mode: "NB", Quick: 1, Thorough: 1, Shards: 1,
+					Body: body,
+				})
+				// two deviations: 816 scenarios of about a minute each - every base state is part of the thorough check of
+				// two properties (thoroughShare's rule, applied here by hand)
+				share := map[string][]string{"idle": {"C01", "C02"}, "inflight": {"C03", "C05"}, "dispatching": {"C06", "C10"},
+					"batch": {"C08", "C16"}, "expiry": {"C18", "C17"}, "errbatch": {"C09", "C17"}}[base.name]
+				Register(&Scenario{
+					Name:  name("pair2/%s/%s+%s", base.name, a.name, b.name),
+					Props: share, Only: "thorough",
+					Mode: "NB", Quick: 2, Thorough: 2, Shards: 1,
 					Body: body,
 				})
 				if only == "thorough" {
